@@ -35,7 +35,7 @@ def known_for(pid: str) -> list[dict]:
 
 def match(known: list[dict], sig: str):
     for k in known:
-        if k["sig"] == sig:
+        if k["sig"] == sig or (k["sig"].endswith("*") and sig.startswith(k["sig"][:-1])):
             return k
     return None
 
